@@ -66,3 +66,55 @@ def rename_locals(tree: SourceTree, suffix: str = "_v") -> dict:
         handle(mod.body)
         overlay[rel] = ast.unparse(mod) + "\n"
     return overlay
+
+
+# ---------------------------------------------------------------------- further behaviour-preserving whole-tree variants
+
+class _SwapEq(ast.NodeTransformer):
+    """a == b  ->  b == a   (both sides side-effect free: names, attributes, constants, subscripts)"""
+    def visit_Compare(self, n):
+        self.generic_visit(n)
+        pure = lambda e: all(isinstance(x, (ast.Name, ast.Attribute, ast.Constant, ast.Subscript, ast.Load, ast.UnaryOp, ast.USub)) for x in ast.walk(e))
+        if len(n.ops) == 1 and isinstance(n.ops[0], (ast.Eq, ast.NotEq)) and pure(n.left) and pure(n.comparators[0]):
+            n.left, n.comparators = n.comparators[0], [n.left]
+        return n
+
+
+class _KeysIn(ast.NodeTransformer):
+    """x in d.keys()  ->  x in d"""
+    def visit_Compare(self, n):
+        self.generic_visit(n)
+        if len(n.ops) == 1 and isinstance(n.ops[0], (ast.In, ast.NotIn)):
+            c = n.comparators[0]
+            if isinstance(c, ast.Call) and isinstance(c.func, ast.Attribute) and c.func.attr == "keys" and not c.args:
+                n.comparators = [c.func.value]
+        return n
+
+
+class _SwapBranches(ast.NodeTransformer):
+    """if c: A else: B  ->  if not c: B else: A   (plain if/else only, not elif chains)"""
+    def visit_If(self, n):
+        self.generic_visit(n)
+        if n.orelse and not (len(n.orelse) == 1 and isinstance(n.orelse[0], ast.If)) and not (len(n.body) == 1 and isinstance(n.body[0], ast.If) and False):
+            t = n.test
+            if isinstance(t, ast.UnaryOp) and isinstance(t.op, ast.Not):
+                n.test = t.operand
+            else:
+                n.test = ast.UnaryOp(op=ast.Not(), operand=t)
+            n.body, n.orelse = n.orelse, n.body
+        return n
+
+
+VARIANTS = {"swap-eq": _SwapEq, "keys-in": _KeysIn, "swap-branches": _SwapBranches}
+
+
+def transform(tree: SourceTree, kind: str) -> dict:
+    overlay = {}
+    for rel in tree.files():
+        if not rel.endswith(".py") or rel.startswith("naunet/examples/"):
+            continue
+        mod = ast.parse(tree.read(rel))
+        mod = VARIANTS[kind]().visit(mod)
+        ast.fix_missing_locations(mod)
+        overlay[rel] = ast.unparse(mod) + "\n"
+    return overlay
